@@ -12,6 +12,7 @@ import (
 	"sort"
 	"strings"
 	"sync"
+	"sync/atomic"
 )
 
 // One op line for the Lean driver together with what the implementation answered.
@@ -40,18 +41,18 @@ type Violation struct {
 }
 
 type Result struct {
-	Property           string           `json:"property"`
-	Seed               int64            `json:"seed"`
-	Tier               string           `json:"tier"`
-	Evaluations        int              `json:"evaluations"`
-	DistinctNontrivial int              `json:"distinct_nontrivial"`
-	Rule               string           `json:"rule"`
-	Samples            []interface{}    `json:"samples"`
-	Histogram          map[string]int   `json:"histogram"`
-	Violations         []Violation      `json:"violations"`
-	TracesValidated    int              `json:"traces_validated_against_impl"`
-	Notes              []string         `json:"notes,omitempty"`
-	Ops                int              `json:"ops"`
+	Property           string         `json:"property"`
+	Seed               int64          `json:"seed"`
+	Tier               string         `json:"tier"`
+	Evaluations        int            `json:"evaluations"`
+	DistinctNontrivial int            `json:"distinct_nontrivial"`
+	Rule               string         `json:"rule"`
+	Samples            []interface{}  `json:"samples"`
+	Histogram          map[string]int `json:"histogram"`
+	Violations         []Violation    `json:"violations"`
+	TracesValidated    int            `json:"traces_validated_against_impl"`
+	Notes              []string       `json:"notes,omitempty"`
+	Ops                int            `json:"ops"`
 }
 
 func newRun(prop string, args []string) *Run {
@@ -102,9 +103,14 @@ func (r *Run) op(op string, impl string) {
 	r.impl.WriteString(impl)
 	r.impl.WriteByte('\n')
 	r.nOps++
+	progress.Add(1)
 }
 
+// bumped by op / hist / count: the watchdog in main.go reads it
+var progress atomic.Int64
+
 func (r *Run) hist(key string) {
+	progress.Add(1)
 	r.mu.Lock()
 	r.Result.Histogram[key]++
 	r.mu.Unlock()
@@ -113,6 +119,7 @@ func (r *Run) hist(key string) {
 // Count a generated case; key canonically identifies it, nontrivial says whether it reaches the
 // property's mechanism.
 func (r *Run) count(key string, nontrivial bool) {
+	progress.Add(1)
 	r.mu.Lock()
 	defer r.mu.Unlock()
 	r.Result.Evaluations++
